@@ -10,7 +10,8 @@
 //	cfg rht=<ms> [tr=own|keep]                 ResponseHeaderTimeout of the proxy's transport; tr=keep keeps the RoundTripper
 //	                                           forward.New chose (nil = a clone of http.DefaultTransport) and only switches
 //	                                           keep-alives off and sets the timeout on it; tr=own installs a fresh http.Transport
-//	resp s=<status> d=<n>:<digest> seed=<k> mode=cl|chunked|close|none [chunks=a,b,..] [slow=1] [pre=103,102] [rh=Name:pe(value)]...
+//	resp s=<status> d=<n>:<digest> seed=<k> mode=cl|chunked|close|none [chunks=a,b,..] [slow=1] [hold=1] [pre=103,102] [rh=Name:pe(value)]...
+//	   (hold=1, with mode=chunked|close: the backend waits after the head until the client has it -> output starts with head=early|late)
 //	   -> <status> [pre=<1xx codes the client saw>] body=<n>:<digest> H <client headers> ev=<events> rec=<status>
 //	      (pre: interim responses the backend sends before the final head; rec is the first non-1xx status written)
 //	fail refused|reset-before|close-before|stall|garbage
@@ -341,6 +342,16 @@ func (s *h) Op(f []string) string {
 			}
 		}
 		slow := hx.KVInt(f, "slow", 0) == 1
+		// hold=1: a stream that is silent at first (SSE, long poll): the backend sends the head and waits for the client to have
+		// it before the first body byte (at most 700 ms); head=early|late says whether the head was relayed on its own
+		hold := hx.KVInt(f, "hold", 0) == 1 && !isAbort
+		headSeen := make(chan struct{})
+		headWhen := make(chan string, 1)
+		if hold {
+			var once sync.Once
+			fx.HeadHook = func() { once.Do(func() { close(headSeen) }) }
+			defer func() { fx.HeadHook = nil }()
+		}
 		body := fx.Body(seed, n)
 		s.prepare(s.be.Addr, "")
 		s.be.SetScript(func(c net.Conn, _ *bufio.Reader, _ *fx.RawReq) bool {
@@ -361,6 +372,14 @@ func (s *h) Op(f []string) string {
 			}
 			bw.WriteString("\r\n")
 			bw.Flush()
+			if hold {
+				select {
+				case <-headSeen:
+					headWhen <- "early"
+				case <-time.After(700 * time.Millisecond):
+					headWhen <- "late"
+				}
+			}
 			rest := body[:sent]
 			emit := func(p []byte) {
 				if mode == "chunked" {
@@ -418,6 +437,14 @@ func (s *h) Op(f []string) string {
 			out = fmt.Sprintf("short %d %d/%d", res.Status, len(res.Body), n)
 		default:
 			out = fmt.Sprintf("%d%s body=%s H %s", res.Status, preSeen, fx.Sum(res.Body), fx.CanonHeaders(res.Headers, fx.ClientDrop))
+		}
+		if hold {
+			select {
+			case w := <-headWhen:
+				out = "head=" + w + " " + out
+			default:
+				out = "head=never " + out
+			}
 		}
 		return strings.Join(strings.Fields(out+s.tail()), " ")
 	case "presp":
